@@ -178,6 +178,11 @@ func mutateMemo(template, path, mut string) (string, bool) {
 			}
 			cur.keys = append(cur.keys, cur.keys[idx])
 			cur.vals = append(cur.vals, &jnode{kind: "lit", lit: "null"})
+		case "rename":
+			if cur.kind != "obj" {
+				return template, false
+			}
+			cur.keys[idx] = "forward"
 		case "dupsame":
 			if cur.kind != "obj" {
 				return template, false
